@@ -31,6 +31,7 @@ type c13DumperCfg struct {
 	routing int     // 0 single Output, 1 one writer per part, 2 one per direction, 3 mixed precedence
 	async   bool
 	base    int
+	failing bool // every writer of this dumper records the bytes and then reports an error
 }
 
 func (d *c13DumperCfg) writerIDs() [7]int {
@@ -77,7 +78,11 @@ func (d *c13DumperCfg) String() string {
 			f += n + "+"
 		}
 	}
-	return fmt.Sprintf("{%s routing=%d async=%v}", strings.TrimSuffix(f, "+"), d.routing, d.async)
+	fw := ""
+	if d.failing {
+		fw = " failing-writers"
+	}
+	return fmt.Sprintf("{%s routing=%d async=%v%s}", strings.TrimSuffix(f, "+"), d.routing, d.async, fw)
 }
 
 // c13Log records every Write of every dump writer, in arrival order.
@@ -92,14 +97,18 @@ type c13Event struct {
 }
 
 type c13LogWriter struct {
-	id  int
-	log *c13Log
+	id   int
+	log  *c13Log
+	fail bool
 }
 
 func (w *c13LogWriter) Write(p []byte) (int, error) {
 	w.log.mu.Lock()
 	w.log.events = append(w.log.events, c13Event{w.id, string(p)})
 	w.log.mu.Unlock()
+	if w.fail {
+		return 0, errors.New("dump writer: disk full")
+	}
 	return len(p), nil
 }
 
@@ -136,7 +145,7 @@ func (d *c13DumperCfg) options(log *c13Log) *DumpOptions {
 		if id == 0 {
 			return nil
 		}
-		return &c13LogWriter{id, log}
+		return &c13LogWriter{id, log, d.failing}
 	}
 	return &DumpOptions{
 		Output: mk(w[0]), RequestOutput: mk(w[1]), ResponseOutput: mk(w[2]),
@@ -155,7 +164,7 @@ func (c c13DumpCfg) String() string { return "client=" + c.cl.String() + " reque
 
 func c13GenDumper(s *verifh.Session, base int, subset int, async bool) *c13DumperCfg {
 	r := s.Rand()
-	d := &c13DumperCfg{base: base, routing: r.Intn(4), async: async}
+	d := &c13DumperCfg{base: base, routing: r.Intn(4), async: async, failing: r.Intn(7) == 0}
 	for i := 0; i < 4; i++ {
 		d.flags[i] = subset&(1<<i) != 0
 	}
